@@ -117,7 +117,28 @@ fn judge_at(x: &Vec<u8>, t: &Vec<u8>, st: &mut Stats) -> Verdict {
 }
 
 fn gen_case(t: &mut Tape) -> Pair {
-    let x = match t.weighted(&[4, 4, 3, 3, 2, 2]) {
+    let x = match t.weighted(&[4, 4, 3, 3, 2, 2, 2]) {
+        6 => {
+            // inputs that are not text at all but hold a CR with more bytes behind it: every prefix (>= 2 bytes) of the v2
+            // signature, whole v2 headers and their mutants, random bytes around a CR
+            match t.below(4) {
+                0 => crate::oracle::v2::SIG[..t.usize_in(2, 12)].to_vec(),
+                1 => {
+                    let mut v = crate::oracle::v2::SIG[..t.usize_in(2, 12)].to_vec();
+                    v.extend(gen::gen_random_bytes(t, 40));
+                    v
+                }
+                2 => gen::gen_v2_mutant(t).0,
+                _ => {
+                    let mut v = gen::gen_random_bytes(t, 30);
+                    v.retain(|&b| b != b'\r');
+                    v.push(b'\r');
+                    v.push(t.byte());
+                    v.extend(gen::gen_random_bytes(t, 10));
+                    v
+                }
+            }
+        }
         5 => {
             // valid UTF-8 with a multi-byte character right after (or before) the first CR: closed for the &str entry points too
             gen::gen_multibyte_cr(t).into_bytes()
